@@ -58,6 +58,11 @@ func NewCtx(prop, tier string) *Ctx {
 		panic(err)
 	}
 	c := &Ctx{Prop: prop, Tier: tier, Seed: seed, Workers: w, Scratch: dir, Start: time.Now()}
+	// replay files of earlier runs of this property are stale
+	old, _ := filepath.Glob(filepath.Join(VerifDir, "evidence", "replays", prop+"-*"))
+	for _, f := range old {
+		os.Remove(f)
+	}
 	c.known = loadKnown()
 	return c
 }
